@@ -90,3 +90,61 @@ def fold_function(fn_node, inputs, allowed):
         else:
             out.append((kind, None))
     return out
+
+
+def module_namespace(prog, modname, allowed, max_depth=40):
+    """``allowed`` extended with what a pure function of module ``modname`` may name besides builtins: the module's literal
+    constants (folded by the program model) and its own module-level functions, each as a wrapper that *folds* the callee on
+    the argument values (interprocedural constant folding; recursion on constants is followed to ``max_depth``).  Nothing
+    is imported: a callee is folded from its source like the function that calls it."""
+    from .model import AnalysisError
+    mod = prog.module(modname)
+    ns = dict(allowed)
+    depth = [0]
+    for name in sorted(getattr(mod, "assigns", {})):
+        if name in ns:
+            continue
+        try:
+            ns[name] = prog.fold_name(modname, name)
+        except (AnalysisError, Exception):
+            pass
+
+    def wrapper(fi):
+        def call(*args, **kwargs):
+            a = fi.node.args
+            if a.vararg or a.kwarg or a.posonlyargs:
+                raise FoldError("%s has star / positional-only parameters" % fi.qualname)
+            params = [p.arg for p in a.args]
+            values = {}
+            defaults = dict(zip(params[len(params) - len(a.defaults):], a.defaults))
+            for p, d in list(defaults.items()) + [(k.arg, d) for k, d in zip(a.kwonlyargs, a.kw_defaults) if d is not None]:
+                values[p] = fold_expr(d, {}, ns)
+            if len(args) > len(params):
+                raise FoldError("too many arguments for %s" % fi.qualname)
+            values.update(zip(params, args))
+            values.update(kwargs)
+            missing = [p for p in params + [k.arg for k in a.kwonlyargs] if p not in values]
+            if missing:
+                raise FoldError("%s called without %s" % (fi.qualname, missing))
+            depth[0] += 1
+            try:
+                if depth[0] > max_depth:
+                    raise FoldError("folding %s: recursion deeper than %d" % (fi.qualname, max_depth))
+                outs = fold_function(fi.node, values, ns)
+            finally:
+                depth[0] -= 1
+            if len(outs) != 1:
+                raise FoldError("%s has %d outcomes on constant arguments" % (fi.qualname, len(outs)))
+            kind, val = outs[0]
+            if kind == "raise":
+                raise FoldError("%s raises on constant arguments" % fi.qualname)
+            if isinstance(val, Exception):
+                raise val
+            return val
+        return call
+    for f in prog.all_funcs():
+        if f.module is mod and f.cls is None and getattr(f, "parent", None) is None and not isinstance(f.node, ast.Lambda) and f.name not in ns:
+            if any(isinstance(x, (ast.Yield, ast.YieldFrom, ast.Await, ast.Global, ast.Nonlocal)) for x in ast.walk(f.node)):
+                continue
+            ns[f.name] = wrapper(f)
+    return ns
